@@ -106,7 +106,7 @@ def case(ctx, i, tier):
             ctx.check("C06:query-changes-nothing", dict(b.holdings_quantity) == before, before=before)
             bal = before[Cash()]
             want = ref(bal, rate, markup, c_ - a_) - Decimal(bal)
-            ctx.check("C06:query-amount", abs(Decimal(float(qv)) - want) <= Decimal(1e-10) * abs(Decimal(bal)) + Decimal(1e-300),
+            ctx.check("C06:query-amount", abs(Decimal(float(qv)) - want) <= Decimal(1e-10) * max(abs(Decimal(bal)), abs(want)) + Decimal(1e-300),
                       got=float(qv), want=float(want))
         bal_before = b.holdings_quantity[Cash()]
         if cash0 > 0 and mode == "plain" and rng.random() < 0.3:
@@ -124,7 +124,7 @@ def case(ctx, i, tier):
         elif bal_before < 0:
             want = ref(bal_before, rate, markup, c_ - a_) - Decimal(bal_before)
             ctx.check("C06:negative-charged-at-r+m",
-                      abs(Decimal(float(amt)) - want) <= Decimal(1e-10) * abs(Decimal(bal_before)),
+                      abs(Decimal(float(amt)) - want) <= Decimal(1e-10) * max(abs(Decimal(bal_before)), abs(want)),
                       got=float(amt), want=float(want), rate=rate, markup=markup)
         again = b.accrued_interest(t, True)
         twin.accrued_interest(t, True)
